@@ -12,6 +12,15 @@ import base64
 from lib import common
 from lib.common import hx
 
+def cannot_replay(why):
+    """a replay record of a kind (or about a curve / entry point) this check cannot re-run: say so and leave with the
+    infrastructure exit code 2 — never answer "still fails" for something that was not re-run"""
+    import sys
+    print("cannot replay: " + why)
+    sys.stdout.flush()
+    raise SystemExit(2)
+
+
 ENCS = ("raw", "uncompressed", "compressed", "hybrid")
 DER_ENCS = ("uncompressed", "compressed", "hybrid")
 FMTS = ("ssleay", "pkcs8")
